@@ -243,6 +243,10 @@ def run(ctx):
         if len(outer) == 1:
             b = dropf.body
             skipping = [r for r in b.return_blocks() if r in b.reachable(0, cut={outer[0].bb})]
+            # ... and inside the closure handed to LOCAL_RECORDER.with the write itself is unconditional
+            if len(reps) == 1 and reps[0].fn is not dropf:
+                cb = reps[0].fn.body
+                skipping += [r for r in cb.return_blocks() if r in cb.reachable(0, cut={reps[0].bb})]
             chk.ob("C01.b", f"{dropf.path} [restore on every path]", not skipping, "every path through drop performs the restore (also while unwinding)" if not skipping else "a path through drop returns without restoring the previous recorder (conditional restore, e.g. skipped while panicking)", dropf.loc())
     # who may touch LOCAL_RECORDER
     users = set()
